@@ -12,6 +12,7 @@ Line protocol (stateful; mirrors the primitive ops of harness/c/c26_state.c).  V
   set <k> <sig> v v ...                -> ok | error:<kind>
   extract <srcsig> <dstsig> v v ...    -> vec ... | error:<kind>
   copy <ksrc> <kdst> <sig>             -> ok | error:<kind>
+  tableid                              -> fingerprint of the generated table compiled into this driver
 -/
 open MjProof MjProof.Driver MjProof.State MjProof.Gen
 
@@ -69,6 +70,7 @@ def parseSizes (toks : List String) : Option (StateSize → Nat) :=
 
 def step (st : St) (line : String) : St × String :=
   match words line with
+  | ["tableid"] => (st, stateTableId)   -- not part of the differential: identifies the compiled table
   | "model" :: _id :: rest =>
     match rest.span (· ≠ ";") with
     | (szs, ";" :: _) =>
